@@ -23,6 +23,8 @@ ASSUME = [
     "protocol-name dimension: inbound keep-alive substreams negotiated under the main or a fallback name are modelled in "
     "KeepAliveMC and run on real request-response networks (A: /verif/x/2 with fallback /verif/x/1, B: old or new name); "
     "the unit-level part does not see lifetime permits (only the transports' accept_substream consults the name map)",
+    "hold-shape dimension: a held substream may be half-closed by reference (write half shut down through Sink::close(&mut s) "
+    "or AsyncWrite::shutdown, or read-only after the remote's FIN); NotBefore(hold) covers the whole lifetime of the object",
     "TLC bounds: one connection, one keep-alive protocol and one non-keep-alive protocol, T = 2 ticks, horizon 9 ticks, "
     "up to 3 substream opens; timers and the loop exit are urgent",
 ]
@@ -74,6 +76,8 @@ def to_sched(stims):
             out.append(dict({"at": s["at"], "a": a, "id": s["id"]}, **({"fb": s.get("fb", False)} if s["a"] == "ropen" else {})))
         elif s["a"] == "drop":
             out.append({"at": s["at"], "a": "drop", "id": s["id"]})
+        elif s["a"] == "half":
+            out.append({"at": s["at"], "a": "half", "id": s["id"], "shape": s["shape"]})
     return out
 
 
@@ -148,6 +152,30 @@ def networks(ctx, gen):
     for i, sc in enumerate(rnd.sample(rr_gen, min(len(rr_gen), 60 if ctx.quick() else 600))):
         k += 1
         add_rr("tlc-rr-%d" % i, sc, TS[i % 3], bool(next(x for x in sc if x["a"] == "ropen").get("fb", False)), k)
+    # hold-shape dimension: a user-protocol substream that is half-closed BY REFERENCE (the object stays and keeps the
+    # connection): write half shut down by the holder through Sink::close(&mut s) or AsyncWrite::shutdown(&mut s), or
+    # only read from after the remote shut its write half down. Held for 1.5T / 3T past the half-close; all transports.
+    def add_half(name, sched, T, k):
+        n = {"name": name, "seed": rnd.randrange(1 << 30), "T": T, "role": "single", "from": "AB"[k % 2], "perturb": k % 3, "sched": sched,
+             "tick_ms": T / 2.0, "kind": "half", "transport": ("tcp", "ws", "quic")[k % 3]}
+        if k % 5 == 0:
+            n["ping_ms"], n["identify"] = max(20, T // 6), True
+        out.append(n)
+    k = 0
+    for r in range(reps):
+        for who, shape in (("open", "write"), ("ropen", "read")):
+            for how in ("sink_close", "shutdown"):
+                for hold in (3, 6):
+                    for T in TS:
+                        k += 1
+                        add_half("halfclosed-%s-%s-%gT" % ("local-write" if who == "open" else "remote-fin", how, hold / 2.0),
+                                 [{"at": 1, "a": who, "id": 1}, {"at": 1.25, "a": "half", "id": 1, "how": how, "shape": shape}, {"at": 1.25 + hold, "a": "drop", "id": 1}], T, k)
+    half_gen = [sc for sc, _ in gen if any(x["a"] == "half" for x in sc) and all(x["a"] in ("open", "ropen", "half", "drop") for x in sc)]
+    for i, sc in enumerate(rnd.sample(half_gen, min(len(half_gen), 60 if ctx.quick() else 600))):
+        k += 1
+        # in the model the holder half-closes ("write") or the remote does ("read"); on real nodes the side that opened
+        # the substream shuts its write half down, alternating between the two entry points
+        add_half("halfclosed-tlc-%d" % i, [dict(x, how=("sink_close", "shutdown")[(i + j) % 2]) if x["a"] == "half" else x for j, x in enumerate(sc)], TS[i % 3], k)
     pick = rnd.sample(gen, min(len(gen), 220 if ctx.quick() else 3000))
     for i, (sched, ping) in enumerate(pick):
         for T in (TS if not ctx.quick() and i % 5 == 0 else (TS[i % 3],)):
@@ -160,8 +188,9 @@ def unit_part(ctx, behs):
     """handle discipline of the real TransportService (ServiceHarness, scripted time): every TLC behaviour (incl. opens
     refused with ChannelClogged, expiries, opened/failed/inbound substreams) and seeded random histories over two
     connections and three protocols; TLC validates the projections against KeepAlive.tla Part 2"""
-    if len(behs) > 60000:       # keep TLC trace validation of the unit part within the thorough budget
-        behs = random.Random(ctx.seed).sample(behs, 60000)
+    cap = 30000 if ctx.quick() else 60000      # keeps TLC trace validation of the unit part within the budget
+    if len(behs) > cap:
+        behs = random.Random(ctx.seed).sample(behs, cap)
     write_jsonl(ctx.path("ubehs.jsonl"), [{"stims": b["stims"]} for b in behs])
     nrand, rlen = (600, 40) if ctx.quick() else (6000, 60)
     summ, _ = harness(ctx, "kasvc", ["--behaviours", ctx.path("ubehs.jsonl"), "--random", nrand, "--len", rlen, "--seed", ctx.seed,
@@ -196,7 +225,7 @@ def unit_part(ctx, behs):
 def classify(seg, idx, reason):
     head = json.loads(seg[0])
     name = head.get("sc", "?")
-    fam = "tlc-rr" if name.startswith("tlc-rr") else ("tlc" if name.startswith("tlc-") else name.split("-at-")[0].split("+")[0])
+    fam = "halfclosed" if name.startswith("halfclosed") else "tlc-rr" if name.startswith("tlc-rr") else ("tlc" if name.startswith("tlc-") else name.split("-at-")[0].split("+")[0])
     return "%s@%s" % (reason.replace(" ", "-"), fam)
 
 
@@ -255,7 +284,7 @@ def evidence(mc, gstats, summ, nets, lines, nseg, nev):
         head = json.loads(s[0])
         bytr[head.get("transport", "tcp")] = bytr.get(head.get("transport", "tcp"), 0) + 1
         name = head["sc"]
-        f = "tlc-rr" if name.startswith("tlc-rr") else ("tlc" if name.startswith("tlc-") else name)
+        f = "halfclosed-tlc" if name.startswith("halfclosed-tlc") else "tlc-rr" if name.startswith("tlc-rr") else ("tlc" if name.startswith("tlc-") else name)
         fam[f] = fam.get(f, 0) + 1
         T = head["T"]
         evs = [json.loads(x) for x in s[1:]]
@@ -327,7 +356,8 @@ def replay(ctx, path):
 def selftest(ctx):
     ok = True
     for name, mut, expect in [("ping-holds-permit", "ping-holds-permit", "MonOK"), ("permit-leak", "permit-leak", "MonOK"), ("no-rearm", "no-rearm", "MonOK"),
-                              ("activity-after-send", "activity-after-send", "ActiveTracked"), ("fallback-no-permit", "fallback-no-permit", "MonOK")]:
+                              ("activity-after-send", "activity-after-send", "ActiveTracked"), ("fallback-no-permit", "fallback-no-permit", "MonOK"),
+                              ("permit-released-at-shutdown", "permit-released-at-shutdown", "MonOK")]:
         r = tlc_mc(ctx, "KeepAliveMC.tla", write_cfg(ctx, "neg_%s.cfg" % name, dict(BASE, MaxSub=2, Mutant=mut), MC_LINES), workers=4, expect_violation=True, timeout=600)
         hit = ("%s is violated" % expect) in r["out"]
         log("selftest model %s -> %s" % (name, "violates %s as required" % expect if hit else "NOT DETECTED"))
